@@ -432,6 +432,13 @@ def runQuery (T : STree) (nm : Naming) (inp : Input) (H? : Option Ham) (q : SExp
       let o := o.put "saxtr" (";".intercalate (r.1.map obsS) ++ "#" ++ (match r.2 with | none => "ok" | some e => "err:" ++ e.toStr))
       let mine := Pyham.Sax.eventsL inp.groups
       o.put "saxev" (if events == mine || (r.2.isSome && events.isPrefixOf mine) then "1" else "0")
+  | .list (.atom "saxf" :: hq :: eq :: iq :: evs), _ =>
+    -- the calls made to the FIRST-pass parser object of a filtered load, replayed through Sax.fstep
+    let f := decFilter [hq, eq, iq]
+    let events := evs.filterMap decEv
+    let r := Pyham.Sax.ftrace f events { gids := filterGenes f inp.species }
+    o.put "saxftr" (";".intercalate (r.1.map fun b => toString b.1 ++ "," ++ toString b.2.1 ++ "," ++ toString b.2.2.1 ++ "," ++
+        toString b.2.2.2.1 ++ "," ++ (if b.2.2.2.2 then "1" else "0")) ++ "#" ++ (match r.2 with | none => "ok" | some e => "err:" ++ e.toStr))
   | .list [.atom "oma"], _ =>
     -- the same file loaded with species_resolve_mode="OMA"
     match loadOMA T nm inp with
